@@ -948,7 +948,7 @@ class OALParser(object):
                                  tracking=1)
 
     def t_COMMENT(self, t):
-        r'/\*([^*]|[\r\n]|(\*+([^*/]|[\r\n])))*\*+/'
+        r'/\*([^*]|(\*+[^*/]))*\*+/'
         t.lexer.lineno += t.value.count('\n')
         t.endlexpos = t.lexpos + len(t.value)
     
